@@ -157,7 +157,7 @@ def c10(tier):
                            "Calc.tla (a C-grammar precedence-climbing evaluator) assigns; each is placed in a constant position and compiled.")
     common.write_evidence(pid, tier, "model_checking", cov, time.time() - t0, len(verdict.violations),
                           ["values that do not fit 16 bits but fit 31 may be either rejected or evaluated exactly", ">> of negatives and shift counts >= 16 are not decided"])
-    return verdict.finish(max_print=40)
+    return verdict.finish(max_print=12)
 
 
 REGISTRY["C10"] = c10
@@ -467,7 +467,7 @@ def c16(tier):
                outcomes=stat, outcomes_rejected_by_Outcome_spec=len(res.lines), attributed_to_known_findings=verdict.known, states=res.distinct,
                explanation="every recorded outcome is validated by TLC against Outcome.tla (terminal states Ok / located Err only)")
     common.write_evidence(pid, tier, "exploration", cov, time.time() - t0, len(verdict.violations), ["deadline 2.5 s per compilation counts as non-termination", "8 MB stack as for a main thread"])
-    return verdict.finish(max_print=60)
+    return verdict.finish(max_print=12)
 
 
 REGISTRY["C16"] = c16
@@ -497,6 +497,8 @@ def det_programs(tier):
     progs.append("unsigned char a; void interrupt nmi() { a++; }\nvoid interrupt irq() { a--; }\nvoid h() { a = 1; }\nvoid main() { h(); }\n")
     progs.append("unsigned char a, b; char f(char x) { char l1; char l2; l1 = x; l2 = l1 + 1; return l2; }\nvoid main() { char m1; m1 = f(a); { char m1; m1 = 2; b = m1; } a = m1; }\n")
     progs.append('#define S "macro string"\nchar *q; void pr(char *s) { }\nvoid main() { pr(S); pr("lit"); pr(S); }\n')
+    progs.append("void fn2(); void fn1() {fn2();}; void fn2() {}; void fn3() {}; void fn4() {}; void main() { fn1(); fn4();}\n")
+    progs.append("char f3(char x); char f2(char x); char f1(char x);\nunsigned char a;\nvoid main() { a = f1(1); }\nchar f1(char x) { return f2(x); }\nchar f2(char x) { return f3(x); }\nchar f3(char x) { return x; }\nchar f4(char x) { return x; }\n")
     progs.append("unsigned char a; void main() { a = 300; }\n")                      # a warning is printed
     progs.append("char *p; unsigned char a; void main() { a = *p; }\n")
     return progs
